@@ -36,10 +36,19 @@ where descList : List Xml → List Xml
   | [] => []
   | c :: cs => descendants c ++ descList cs
 
-/-- `Node::text`: of an element, the text of its first child if that is a text node -/
+/-- the text children of an element, in document order -/
+def textsOf : List Xml → List String
+  | [] => []
+  | .text s :: cs => s :: textsOf cs
+  | _ :: cs => textsOf cs
+
+/-- `char_data`: the character data of an element — all of its text, also behind a comment or a processing
+instruction (which `Node::text` would stop at; fix F18); `none` if it has no text at all -/
 def text? : Xml → Option String
-  | .elem _ _ (.text s :: _) => some s
-  | .elem _ _ _ => none
+  | .elem _ _ cs =>
+    match textsOf cs with
+    | [] => none
+    | t :: ts => some (ts.foldl (· ++ ·) t)
   | .text s => some s
   | .other => none
 
@@ -57,19 +66,20 @@ end Xml
 def visualElements (doc : Xml) (names : List String) : List Xml :=
   doc.descendants.filter fun n =>
     n.tag == "visualElement" &&
-    match n.descendants.find? (fun d => d.tag == "elementName") with
+    match n.children.find? (fun d => d.tag == "elementName") with
     | none => false
     | some nameNode =>
       match nameNode.text? with
       | some name => names.contains name
       | none => false
 
-/-- `attrib` -/
+/-- `attrib`: the value of the element's own attribute entry with that key — `elementAttributes` is a child of the
+element and the entries are its children (entries nested inside a value are not looked at; fix F19) -/
 def attrib (node : Xml) (label : String) : Option Xml :=
-  match node.descendants.find? (fun d => d.tag == "elementAttributes") with
+  match node.children.find? (fun d => d.tag == "elementAttributes") with
   | none => none
   | some attribs =>
-    let entries := attribs.descendants.filter (fun d => d.tag == "entry")
+    let entries := attribs.children.filter (fun d => d.tag == "entry")
     match entries.find? (fun entry =>
       match entry.firstElemChild with
       | none => false
